@@ -1013,7 +1013,7 @@ func (w *World) Teardown() {
 		}
 	}
 	w.hmu.Lock()
-	for _, h := range w.hands {
+	for _, h := range w.allHands {
 		select {
 		case h.ret <- handRet{err: status.Error(codes.Aborted, "teardown")}:
 		default:
